@@ -42,7 +42,6 @@ type perioEvent struct {
 
 type perioIn struct {
 	Histories [][]perioEvent `json:"histories"`
-	Sweep     []int          `json:"sweep"` // total (seid,urr) counts for the queryMultiURR sweep
 }
 
 // ---- output
@@ -57,10 +56,8 @@ type perioObs struct {
 }
 
 type perioOut struct {
-	Histories [][]perioObs  `json:"histories"`
-	Limit     int           `json:"limit"` // gtp5gnl.MaxNetlinkUsageReportNum()
-	Sweep     []interface{} `json:"sweep"`
-	SweepNote string        `json:"sweep_note"`
+	Histories [][]perioObs `json:"histories"`
+	Limit     int          `json:"limit"` // gtp5gnl.MaxNetlinkUsageReportNum()
 }
 
 // perioUnit: real tickers must never fire during a run
@@ -261,11 +258,8 @@ func perioHistory(evs []perioEvent) []perioObs {
 	return out
 }
 
-// perioSweep is filled in by perio_sim.go when the simulated gtp5g endpoint (SimKernel) is part of the overlay:
-// it must run the REAL Gtp5g.queryMultiURR on a query map with `total` (seid,urr) pairs and return
-// {"total":n, "query":[[seid,[urr..]]..], "requests":[[[seid,urr]..]..] (one list per GET_MULTI_REPORTS
-// request, in order), "result":[[seid,[urr..]]..], "err":""}.
-var perioSweep func(total int) (interface{}, error)
+// The chunking loop of Gtp5g.queryMultiURR is exercised by mode "gtp5g_multiurr" (gtp5g_aux.go, over the
+// simulated netlink endpoint of internal/forwarder/verif_sim.go); this mode only reports the limit it uses.
 
 func init() {
 	modes["perio"] = func(in json.RawMessage) (interface{}, error) {
@@ -275,22 +269,11 @@ func init() {
 		}
 		logger.Log.SetOutput(io.Discard)
 		logger.Log.SetLevel(logrus.PanicLevel)
-		res := perioOut{Histories: make([][]perioObs, len(inp.Histories)), Sweep: []interface{}{}}
+		res := perioOut{Histories: make([][]perioObs, len(inp.Histories))}
 		for i, h := range inp.Histories {
 			res.Histories[i] = perioHistory(h)
 		}
 		res.Limit = perioBatchLimit()
-		if perioSweep == nil {
-			res.SweepNote = "queryMultiURR not reachable: no simulated netlink endpoint in this overlay"
-		} else {
-			for _, n := range inp.Sweep {
-				r, err := perioSweep(n)
-				if err != nil {
-					return nil, err
-				}
-				res.Sweep = append(res.Sweep, r)
-			}
-		}
 		return res, nil
 	}
 }
